@@ -359,16 +359,24 @@ fn gen_pair(src: &mut Src) -> Pair {
             };
             let cls = if src.chance(50) { "AA-CLASS" } else { "ZZ-CLASS" };
             let cls_def = format!("{cls} ::= CLASS {{ &id {t_sug} UNIQUE, &Type }} WITH SYNTAX {{ ID &id TYPE &Type }}");
-            let pos = src.pick(3);
-            let (sug, exp) = match pos {
-                0 => (format!("{TARGET} ::= {cls}.&id"), format!("{TARGET} ::= {t_exp}")),
-                1 => (format!("{TARGET} ::= SEQUENCE {{ f {cls}.&id, g NULL }}"), format!("{TARGET} ::= SEQUENCE {{ f {t_exp}, g NULL }}")),
-                _ => (format!("{TARGET} ::= CHOICE {{ f {cls}.&id, g NULL }}"), format!("{TARGET} ::= CHOICE {{ f {t_exp}, g NULL }}")),
+            // positions 3..5: below an anonymous nested type (inline SEQUENCE as a CHOICE
+            // alternative, the same one level deeper, SEQUENCE in SEQUENCE)
+            let pos = src.pick(6);
+            let shape = |t: &str| -> String {
+                match pos {
+                    0 => format!("{TARGET} ::= {t}"),
+                    1 => format!("{TARGET} ::= SEQUENCE {{ f {t}, g NULL }}"),
+                    2 => format!("{TARGET} ::= CHOICE {{ f {t}, g NULL }}"),
+                    3 => format!("{TARGET} ::= CHOICE {{ attr SEQUENCE {{ f {t}, g NULL }}, flag BOOLEAN }}"),
+                    4 => format!("{TARGET} ::= SEQUENCE {{ w CHOICE {{ attr SEQUENCE {{ f {t} }}, flag BOOLEAN }}, g NULL }}"),
+                    _ => format!("{TARGET} ::= SEQUENCE {{ inner SEQUENCE {{ f {t}, h BOOLEAN }}, g NULL }}"),
+                }
             };
+            let (sug, exp) = (shape(&format!("{cls}.&id")), shape(&t_exp));
             let mut helpers = vec![cls_def];
             let with_ref = helper.is_some();
             helpers.extend(helper);
-            Pair { kind: format!("class-field pos={pos} constrained_by_reference={with_ref}"), sugared: arrange(src, helpers, sug), expanded: vec![exp], wrong: vec![], header, nontrivial: with_ref }
+            Pair { kind: format!("class-field pos={pos} constrained_by_reference={with_ref}"), sugared: arrange(src, helpers, sug), expanded: vec![exp], wrong: vec![], header, nontrivial: with_ref || pos >= 3 }
         }
     }
 }
